@@ -70,7 +70,8 @@ Record session := {
   r_summary : bool;
   r_teardown : bool;
   r_setup : bool;
-  r_creator : bool
+  r_creator : bool;
+  r_polled : bool              (* the scheduler's status was read in this round *)
 }.
 
 Inductive hstate := HPending | HRunning | HGone | HCancelled.
@@ -183,7 +184,7 @@ Definition new_session (p : N) (s : state) (creator : bool) : session := {|
   r_pid := p; r_alive := true; r_st := st s; r_bl := bl s; r_index := next_index s; r_out := ids s;
   r_round := false; r_canceled := canceled s; r_owns := false; r_placed := []; r_seen := [];
   r_updated := false; r_check := None; r_summary := false; r_teardown := false; r_setup := false;
-  r_creator := creator |}.
+  r_creator := creator; r_polled := false |}.
 
 Definition with_holder (s : state) (h : option session) : state := {|
   created := created s; st := st s; bl := bl s; ids := ids s; next_index := next_index s; holder := h;
@@ -269,7 +270,7 @@ Definition step (sc : scenario) (s : state) (e : event) : option state :=
         Some (set_session s {| r_pid := r_pid r; r_alive := true; r_st := r_st r; r_bl := r_bl r; r_index := r_index r;
                r_out := r_out r; r_round := true; r_canceled := r_canceled r; r_owns := false; r_placed := [];
                r_seen := []; r_updated := false; r_check := None; r_summary := false; r_teardown := false;
-               r_setup := r_setup r; r_creator := r_creator r |})
+               r_setup := r_setup r; r_creator := r_creator r; r_polled := false |})
       else None
     | None => None
     end
@@ -281,7 +282,7 @@ Definition step (sc : scenario) (s : state) (e : event) : option state :=
                r_out := filter (fun i => memN i active) (r_out r); r_round := true; r_canceled := r_canceled r;
                r_owns := r_owns r; r_placed := r_placed r; r_seen := r_seen r; r_updated := r_updated r;
                r_check := r_check r; r_summary := r_summary r; r_teardown := r_teardown r; r_setup := r_setup r;
-               r_creator := r_creator r |})
+               r_creator := r_creator r; r_polled := true |})
       else None
     | None => None
     end
@@ -296,7 +297,7 @@ Definition step (sc : scenario) (s : state) (e : event) : option state :=
                      r_index := r_index r; r_out := r_out r; r_round := true; r_canceled := r_canceled r;
                      r_owns := r_owns r; r_placed := r_placed r; r_seen := r_seen r ++ names;
                      r_updated := r_updated r; r_check := r_check r; r_summary := r_summary r;
-                     r_teardown := r_teardown r; r_setup := r_setup r; r_creator := r_creator r |} in
+                     r_teardown := r_teardown r; r_setup := r_setup r; r_creator := r_creator r; r_polled := r_polled r |} in
         Some {| created := created s; st := st s; bl := bl s; ids := ids s; next_index := next_index s;
                 holder := Some r'; marker := marker s; complete := complete s; canceled := canceled s;
                 rows := rows s; pending := remove_rows rs (pending s); processed := processed s ++ rs;
@@ -318,7 +319,7 @@ Definition step (sc : scenario) (s : state) (e : event) : option state :=
                      r_index := r_index r; r_out := r_out r; r_round := true; r_canceled := r_canceled r;
                      r_owns := r_owns r; r_placed := r_placed r; r_seen := r_seen r ++ [j];
                      r_updated := r_updated r; r_check := r_check r; r_summary := r_summary r;
-                     r_teardown := r_teardown r; r_setup := r_setup r; r_creator := r_creator r |} in
+                     r_teardown := r_teardown r; r_setup := r_setup r; r_creator := r_creator r; r_polled := r_polled r |} in
         Some {| created := created s; st := st s; bl := bl s; ids := ids s; next_index := next_index s;
                 holder := Some r'; marker := marker s; complete := complete s; canceled := canceled s;
                 rows := rows s ++ [rw]; pending := pending s; processed := processed s ++ [rw];
@@ -330,12 +331,13 @@ Definition step (sc : scenario) (s : state) (e : event) : option state :=
   | EMarkerTouch p =>
     match in_round s p with
     | Some r =>
-      if negb (marker s) && negb (r_owns r) && negb (r_updated r) then
+      if negb (marker s) && negb (r_owns r) && negb (r_updated r)
+         && (r_polled r || match r_out r with [] => true | _ => false end) then
         let r' := {| r_pid := r_pid r; r_alive := true; r_st := r_st r; r_bl := r_bl r; r_index := r_index r;
                      r_out := r_out r; r_round := true; r_canceled := r_canceled r; r_owns := true;
                      r_placed := r_placed r; r_seen := r_seen r; r_updated := r_updated r; r_check := r_check r;
                      r_summary := r_summary r; r_teardown := r_teardown r; r_setup := r_setup r;
-                     r_creator := r_creator r |} in
+                     r_creator := r_creator r; r_polled := r_polled r |} in
         Some {| created := created s; st := st s; bl := bl s; ids := ids s; next_index := next_index s;
                 holder := Some r'; marker := true; complete := complete s; canceled := canceled s;
                 rows := rows s; pending := pending s; processed := processed s; hpc := hpc s; nodes := nodes s;
@@ -362,7 +364,7 @@ Definition step (sc : scenario) (s : state) (e : event) : option state :=
                      r_round := true; r_canceled := r_canceled r; r_owns := true;
                      r_placed := r_placed r ++ names; r_seen := r_seen r; r_updated := r_updated r;
                      r_check := r_check r; r_summary := r_summary r; r_teardown := r_teardown r;
-                     r_setup := r_setup r; r_creator := r_creator r |} in
+                     r_setup := r_setup r; r_creator := r_creator r; r_polled := r_polled r |} in
         Some {| created := created s; st := st s; bl := bl s; ids := ids s; next_index := next_index s;
                 holder := Some r'; marker := marker s; complete := complete s; canceled := canceled s;
                 rows := rows s; pending := pending s; processed := processed s;
@@ -391,7 +393,7 @@ Definition step (sc : scenario) (s : state) (e : event) : option state :=
                      r_index := r_index r; r_out := r_out r; r_round := true; r_canceled := r_canceled r;
                      r_owns := r_owns r; r_placed := r_placed r; r_seen := r_seen r; r_updated := true;
                      r_check := r_check r; r_summary := r_summary r; r_teardown := r_teardown r;
-                     r_setup := r_setup r; r_creator := r_creator r |} in
+                     r_setup := r_setup r; r_creator := r_creator r; r_polled := r_polled r |} in
         Some {| created := created s; st := snap_st sn; bl := snap_bl sn; ids := sn_ids sn; next_index := sn_index sn;
                 holder := Some r'; marker := marker s; complete := complete s; canceled := canceled s;
                 rows := rows s; pending := pending s; processed := processed s; hpc := hpc s; nodes := nodes s;
@@ -405,12 +407,13 @@ Definition step (sc : scenario) (s : state) (e : event) : option state :=
     | Some r =>
       let all_done := forallb (fun j => jstate_eqb (r_st r j) DONE) (all_jobs sc) in
       if Bool.eqb b (all_done || match ids s with [] => true | _ => false end)
-         && (r_updated r || (match r_placed r with [] => true | _ => false end)) then
+         && (r_updated r || (match r_placed r with [] => true | _ => false end))
+         && r_owns r && (r_updated r || eqsetN (r_out r) (ids s)) then
         Some (set_session s {| r_pid := r_pid r; r_alive := true; r_st := r_st r; r_bl := r_bl r; r_index := r_index r;
                r_out := r_out r; r_round := true; r_canceled := r_canceled r; r_owns := r_owns r;
                r_placed := r_placed r; r_seen := r_seen r; r_updated := r_updated r; r_check := Some b;
                r_summary := r_summary r; r_teardown := r_teardown r; r_setup := r_setup r;
-               r_creator := r_creator r |})
+               r_creator := r_creator r; r_polled := r_polled r |})
       else None
     | None => None
     end
@@ -423,7 +426,7 @@ Definition step (sc : scenario) (s : state) (e : event) : option state :=
                      r_out := r_out r; r_round := true; r_canceled := r_canceled r; r_owns := false;
                      r_placed := []; r_seen := r_seen r; r_updated := true; r_check := r_check r;
                      r_summary := r_summary r; r_teardown := r_teardown r; r_setup := r_setup r;
-                     r_creator := r_creator r |} in
+                     r_creator := r_creator r; r_polled := r_polled r |} in
         Some {| created := created s; st := st s; bl := bl s; ids := ids s; next_index := next_index s;
                 holder := Some r'; marker := false; complete := complete s; canceled := canceled s;
                 rows := rows s; pending := pending s; processed := processed s; hpc := hpc s; nodes := nodes s;
@@ -442,7 +445,7 @@ Definition step (sc : scenario) (s : state) (e : event) : option state :=
         Some (set_session s {| r_pid := r_pid r; r_alive := true; r_st := r_st r; r_bl := r_bl r; r_index := r_index r;
                r_out := r_out r; r_round := true; r_canceled := r_canceled r; r_owns := r_owns r;
                r_placed := r_placed r; r_seen := r_seen r; r_updated := r_updated r; r_check := r_check r;
-               r_summary := true; r_teardown := r_teardown r; r_setup := r_setup r; r_creator := r_creator r |})
+               r_summary := true; r_teardown := r_teardown r; r_setup := r_setup r; r_creator := r_creator r; r_polled := r_polled r |})
       else None
     | None => None
     end
@@ -456,7 +459,7 @@ Definition step (sc : scenario) (s : state) (e : event) : option state :=
                        r_out := r_out r; r_round := r_round r; r_canceled := r_canceled r; r_owns := r_owns r;
                        r_placed := r_placed r; r_seen := r_seen r; r_updated := r_updated r; r_check := r_check r;
                        r_summary := r_summary r; r_teardown := r_teardown r; r_setup := true;
-                       r_creator := r_creator r |} in
+                       r_creator := r_creator r; r_polled := r_polled r |} in
           Some {| created := created s; st := st s; bl := bl s; ids := ids s; next_index := next_index s;
                   holder := Some r'; marker := marker s; complete := complete s; canceled := canceled s;
                   rows := rows s; pending := pending s; processed := processed s; hpc := hpc s; nodes := nodes s;
@@ -472,7 +475,7 @@ Definition step (sc : scenario) (s : state) (e : event) : option state :=
           Some (set_session s {| r_pid := r_pid r; r_alive := true; r_st := r_st r; r_bl := r_bl r; r_index := r_index r;
                  r_out := r_out r; r_round := true; r_canceled := r_canceled r; r_owns := r_owns r;
                  r_placed := r_placed r; r_seen := r_seen r; r_updated := r_updated r; r_check := r_check r;
-                 r_summary := r_summary r; r_teardown := true; r_setup := r_setup r; r_creator := r_creator r |})
+                 r_summary := r_summary r; r_teardown := true; r_setup := r_setup r; r_creator := r_creator r; r_polled := r_polled r |})
         else None
       | None => None
       end
@@ -519,7 +522,7 @@ Definition step (sc : scenario) (s : state) (e : event) : option state :=
                      r_index := r_index r; r_out := r_out r; r_round := true; r_canceled := r_canceled r;
                      r_owns := r_owns r; r_placed := r_placed r; r_seen := r_seen r; r_updated := r_updated r;
                      r_check := r_check r; r_summary := false; r_teardown := false;
-                     r_setup := r_setup r; r_creator := r_creator r |};
+                     r_setup := r_setup r; r_creator := r_creator r; r_polled := r_polled r |};
                 marker := marker s; complete := true; canceled := canceled s;
                 rows := rows s; pending := pending s; processed := processed s; hpc := hpc s; nodes := nodes s;
                 handed := handed s; indices := indices s; launched := launched s;
@@ -536,7 +539,7 @@ Definition step (sc : scenario) (s : state) (e : event) : option state :=
                      r_index := r_index r; r_out := r_out r; r_round := r_round r; r_canceled := true;
                      r_owns := r_owns r; r_placed := r_placed r; r_seen := r_seen r; r_updated := r_updated r;
                      r_check := r_check r; r_summary := r_summary r; r_teardown := r_teardown r;
-                     r_setup := r_setup r; r_creator := r_creator r |};
+                     r_setup := r_setup r; r_creator := r_creator r; r_polled := r_polled r |};
                 marker := marker s; complete := complete s; canceled := true;
                 rows := rows s; pending := pending s; processed := processed s; hpc := hpc s; nodes := nodes s;
                 handed := handed s; indices := indices s; launched := launched s;
@@ -684,7 +687,7 @@ Definition step (sc : scenario) (s : state) (e : event) : option state :=
                      r_index := r_index r; r_out := r_out r; r_round := r_round r; r_canceled := r_canceled r;
                      r_owns := r_owns r; r_placed := r_placed r; r_seen := r_seen r; r_updated := r_updated r;
                      r_check := r_check r; r_summary := r_summary r; r_teardown := r_teardown r;
-                     r_setup := r_setup r; r_creator := r_creator r |})
+                     r_setup := r_setup r; r_creator := r_creator r; r_polled := r_polled r |})
             else s
           | None => s
           end)
